@@ -3,6 +3,7 @@ import Heph.Model.CondType
 import Heph.Model.GenVar
 import Heph.Model.GenFuncRef
 import Heph.Model.GenNew
+import Heph.Model.GenMatch
 import Heph.Props.C06
 import Heph.Proofs.CheckSound
 import Heph.Proofs.CheckSubD
@@ -752,6 +753,131 @@ example :
         ⟨"Box", true, true, boxC⟩] anyK "Any" true).map (·.name) = ["Plain", "Box"] ∧
     (subclassCandidates [⟨"Plain", true, false, clsPlain⟩, ⟨"Box", true, true, boxC⟩]
         (tconNew boxC [longK]) "Box" false).map (·.name) = ["Box"] := by
+  decide
+
+/-! ## 7. The matching family: `_get_matching_class_decls`, `_get_matching_class`,
+       `_gen_matching_class`, `_get_matching_objects`, `_get_matching_function_declarations` -/
+
+/-- **what `matchedOK` gives the caller**: the attribute's type under the returned maps is
+    `is_assignable` to the expected type (`subtype`), `==` to it, or its signature `==` the
+    expected function type — exactly as the code decides (`sigtypeCompatible_sound`).  The harness
+    evaluates `matchedOK` on every (attribute, maps) the five functions return. -/
+theorem matchedOK_sound (extra : List (String × String)) (a : AttrSig) (etype : Ty) (m : TMap)
+    (checkSig sub : Bool) (mode : AttrMode) (h : matchedOK extra a etype m checkSig sub mode = true) :
+    ∃ aty, attrTypeOf mode a m = some aty ∧
+      (checkSig = false → sub = true → isAssignable extra aty etype = .yes) ∧
+      (checkSig = false → sub = false → beq aty etype = true) ∧
+      (checkSig = true → beq etype (mkP a.fnCon (a.params.map (fun p => substituteType p m) ++ [aty])) = true) :=
+  sigtypeCompatible_sound extra a etype m checkSig sub mode ((res_beq_yes _).1 h)
+
+private theorem classDeclsOf_sound (extra : List (String × String)) (void etype : Ty) (sub signature : Bool)
+    (self cname : String) (attrs : List (Bool × AttrSig)) :
+    ∀ (maps : List (Option TMap)) (out : List (String × AttrSig × TMap)) (left : List (Option TMap)),
+    classDeclsOf extra void etype sub signature self cname attrs maps = some (out, left) →
+    ∀ x ∈ out, x.1 = cname ∧ (∃ h, (h, x.2.1) ∈ attrs ∧ classAttrReached void signature self h x.2.1 = true) ∧
+      matchedOK extra x.2.1 etype x.2.2 signature sub .whole = true := by
+  induction attrs with
+  | nil =>
+    intro maps out left h x hx
+    simp only [classDeclsOf, Option.some.injEq, Prod.mk.injEq] at h
+    obtain ⟨rfl, _⟩ := h
+    cases hx
+  | cons p rest ih =>
+    obtain ⟨hasTy, a⟩ := p
+    intro maps out left h x hx
+    unfold classDeclsOf at h
+    by_cases hr : classAttrReached void signature self hasTy a = true
+    · simp only [hr, if_true] at h
+      cases maps with
+      | nil => cases h
+      | cons m maps' =>
+        simp only [Option.map_eq_some_iff] at h
+        obtain ⟨⟨out', left'⟩, hrec, heq⟩ := h
+        simp only [Prod.mk.injEq] at heq
+        obtain ⟨rfl, rfl⟩ := heq
+        have ih' := ih maps' out' left' hrec
+        have lift : ∀ y ∈ out', y.1 = cname ∧
+            (∃ h, (h, y.2.1) ∈ (hasTy, a) :: rest ∧ classAttrReached void signature self h y.2.1 = true) ∧
+            matchedOK extra y.2.1 etype y.2.2 signature sub .whole = true := by
+          intro y hy
+          obtain ⟨h1, ⟨hh, hm, hreach⟩, h3⟩ := ih' y hy
+          exact ⟨h1, ⟨hh, List.mem_cons_of_mem _ hm, hreach⟩, h3⟩
+        cases m with
+        | none => exact lift x hx
+        | some m =>
+          simp only [] at hx
+          by_cases hk : matchedOK extra a etype m signature sub .whole = true
+          · simp only [hk, if_true, List.mem_cons] at hx
+            rcases hx with rfl | hx
+            · exact ⟨rfl, ⟨hasTy, List.mem_cons_self, hr⟩, hk⟩
+            · exact lift x hx
+          · simp only [hk] at hx
+            exact lift x hx
+    · simp only [hr] at h
+      obtain ⟨h1, ⟨hh, hm, hreach⟩, h3⟩ := ih maps out left h x hx
+      exact ⟨h1, ⟨hh, List.mem_cons_of_mem _ hm, hreach⟩, h3⟩
+
+/-- **`_get_matching_class_decls`**: every (class, attribute, map) the random choice of
+    `_get_matching_class` may draw is an attribute of a class in scope that is typed, not `void`,
+    not the function being generated when a signature is wanted, and fits the expected type under
+    its map (`matchedOK`, unfolded by `matchedOK_sound`) -/
+theorem matchingClassDecls_sound (extra : List (String × String)) (void etype : Ty) (sub signature : Bool)
+    (self : String) (classes : List (String × List (Bool × AttrSig))) :
+    ∀ (maps : List (Option TMap)) (out : List (String × AttrSig × TMap)),
+    matchingClassDecls extra void etype sub signature self classes maps = some out →
+    ∀ x ∈ out, (∃ attrs h, (x.1, attrs) ∈ classes ∧ (h, x.2.1) ∈ attrs ∧
+        classAttrReached void signature self h x.2.1 = true) ∧
+      matchedOK extra x.2.1 etype x.2.2 signature sub .whole = true := by
+  induction classes with
+  | nil =>
+    intro maps out h x hx
+    simp only [matchingClassDecls, Option.some.injEq] at h
+    subst h; cases hx
+  | cons p rest ih =>
+    obtain ⟨cname, attrs⟩ := p
+    intro maps out h x hx
+    unfold matchingClassDecls at h
+    cases hc : classDeclsOf extra void etype sub signature self cname attrs maps with
+    | none => rw [hc] at h; cases h
+    | some q =>
+      obtain ⟨o1, left⟩ := q
+      rw [hc] at h
+      simp only [Option.map_eq_some_iff] at h
+      obtain ⟨more, hrec, rfl⟩ := h
+      rcases List.mem_append.1 hx with hx | hx
+      · obtain ⟨h1, ⟨hh, hm, hreach⟩, h3⟩ := classDeclsOf_sound extra void etype sub signature self cname attrs maps o1 left hc x hx
+        exact ⟨⟨attrs, hh, by rw [h1]; exact List.mem_cons_self, hm, hreach⟩, h3⟩
+      · obtain ⟨⟨as, hh, hm1, hm2, hreach⟩, h3⟩ := ih left more hrec x hx
+        exact ⟨⟨as, hh, List.mem_cons_of_mem _ hm1, hm2, hreach⟩, h3⟩
+
+/-- **`_gen_matching_class`**: the attribute returned is one of the generated class's own
+    attributes and fits the expected type exactly (`subtype` is off) under the instantiation's map;
+    `None` is returned only when no attribute fits -/
+theorem firstCompatible_sound (attrs : List AttrSig) (etype : Ty) (m : TMap) (signature : Bool) (a : AttrSig)
+    (h : firstCompatible attrs etype m signature = some a) :
+    a ∈ attrs ∧ matchedOK [] a etype m signature false .whole = true :=
+  ⟨List.mem_of_find?_eq_some h, by simpa using List.find?_some h⟩
+
+theorem firstCompatible_none (attrs : List AttrSig) (etype : Ty) (m : TMap) (signature : Bool)
+    (h : firstCompatible attrs etype m signature = none) :
+    ∀ a ∈ attrs, matchedOK [] a etype m signature false .whole = false := by
+  intro a ha
+  simpa using List.find?_eq_none.1 h a ha
+
+/-- the hypotheses are satisfiable and the filter bites: of `class Box<T>(val x: T, val n: Number)`
+    and `class Plain(val s: String)`, a `Long` position with `subtype` is offered `Box.x` under
+    `T ↦ Long` only (`Number` is no subtype of `Long`, the unifier map of `n` is empty); the
+    `(False, None)` answer of `_is_signature_compatible` drops an attribute -/
+example :
+    ((matchingClassDecls [] stringK longK true false "f"
+        [("Box", [(true, ⟨"x", tT, [], fn1K⟩), (true, ⟨"n", numK, [], fn1K⟩)]),
+         ("Plain", [(true, ⟨"s", stringK, [], fn1K⟩)])]
+        [some [(tT, longK)], some [], some []]).map fun l => l.map fun x => (x.1, x.2.1.name))
+      = some [("Box", "x")] ∧
+    ((matchingClassDecls [] stringK longK true false "f"
+        [("Box", [(true, ⟨"x", tT, [], fn1K⟩)])] [none]).map fun l => l.length) = some 0 ∧
+    (firstCompatible [⟨"n", numK, [], fn1K⟩, ⟨"x", tT, [], fn1K⟩] longK [(tT, longK)] false).map (·.name)
+      = some "x" := by
   decide
 
 end Heph.Props.C01
